@@ -3,8 +3,8 @@ correspondence stream.  Imported by tools/props/c11.py (`translate`, `run_stream
 import importlib.util
 from lib.core import *
 
-PROPS_FILES = ["Gama/Props/C11AdjRes.lean", "Gama/Props/C11AdjResInit.lean"]
-LEAN_TARGETS = ["Gama.Props.C11AdjRes", "Gama.Props.C11AdjResInit"]
+PROPS_FILES = ["Gama/Props/C11AdjRes.lean", "Gama/Props/C11AdjResInit.lean", "Gama/Props/C11AdjResAccept.lean"]
+LEAN_TARGETS = ["Gama.Props.C11AdjRes", "Gama.Props.C11AdjResInit", "Gama.Props.C11AdjResAccept"]
 DRIVERS = ["drv_adjres"]
 
 _spec = importlib.util.spec_from_file_location("c11_adjres_gen", str(VERIF / "tools" / "gen" / "c11_adjres.py"))
